@@ -4,6 +4,7 @@ import (
 	"context"
 	"encoding/json"
 	"fmt"
+	"strings"
 	"testing"
 
 	leanhelix "github.com/orbs-network/lean-helix-go"
@@ -423,6 +424,11 @@ func TestC02Seq(t *testing.T) {
 				}
 			case 3: // the same proof once more (must get the same verdict)
 			}
+			if rapid.IntRange(0, 3).Draw(t, "corrupt-in-place") == 0 { // same length, a size word overwritten: hostile bytes in the reused buffer
+				next.Signers = append([]c02Signer{}, first.Signers...)
+				next.BlockID, next.View = first.BlockID, first.View
+				next.ByteOps = []byteOp{{K: "set32", Off: rapid.IntRange(0, 4096).Draw(t, "off"), Val: rapid.SampledFrom([]uint32{0xffffffff, 0xfffffffc, 0x7fffffff, 0}).Draw(t, "val")}}
+			}
 			if rapid.Bool().Draw(t, "flip-mode") {
 				next.Soft = !next.Soft
 			}
@@ -443,7 +449,55 @@ func TestC02Seq(t *testing.T) {
 	})
 }
 
+// C12 (proof APIs): the same sequences, judged only for "never panics out to the caller": ValidateBlockConsensus and
+// GetMemberIdsFromBlockProof on one instance, hostile bytes arriving in a buffer that held a well-formed proof a moment ago.
+func TestC12Proofs(t *testing.T) {
+	col := ev.Get("C12")
+	rapid.Check(t, func(t *rapid.T) {
+		first := drawC02(t)
+		first.RawProof, first.ByteOps = nil, nil
+		sc := c02SeqCase{Cases: []c02Case{first}, ReuseBuffer: rapid.IntRange(0, 4).Draw(t, "reuse") > 0}
+		for k := rapid.IntRange(1, 3).Draw(t, "more"); k > 0; k-- {
+			next := first
+			next.Signers = append([]c02Signer{}, first.Signers...)
+			next.ByteOps = nil
+			for j := rapid.IntRange(1, 2).Draw(t, "nops"); j > 0; j-- {
+				next.ByteOps = append(next.ByteOps, byteOp{K: rapid.SampledFrom([]string{"set32", "set32", "set32", "flip"}).Draw(t, "bop"), Off: rapid.IntRange(0, 4096).Draw(t, "off"),
+					Val: rapid.SampledFrom([]uint32{0xffffffff, 0xfffffffc, 0x7fffffff, 0x80000000, 0, 1, 4}).Draw(t, "val")})
+			}
+			if rapid.IntRange(0, 2).Draw(t, "as-prev") == 0 {
+				next.PrevMode = "genuine"
+			}
+			sc.Cases = append(sc.Cases, next)
+		}
+		col.Case()
+		col.Class("proof-api:sequence-on-one-instance")
+		if sc.ReuseBuffer {
+			col.Class("proof-api:buffer-reused")
+			b, _ := json.Marshal(sc)
+			col.NonTrivial(string(b))
+		}
+		if v := runC02Seq(sc); v != nil && strings.Contains(v.Kind, "panic") {
+			v.Property, v.Kind, v.Replayer = "C12", "panic-in-proof-api:"+v.Kind, "C12proofs"
+			if msg := ev.Report(v); msg != "" {
+				t.Fatal(msg)
+			}
+		}
+	})
+}
+
 func init() {
+	replayers["C12proofs"] = func(raw json.RawMessage) *ev.Violation {
+		var c c02SeqCase
+		if err := json.Unmarshal(raw, &c); err != nil {
+			return &ev.Violation{Property: "C12", Kind: "bad-replay-file", Detail: err.Error()}
+		}
+		if v := runC02Seq(c); v != nil && strings.Contains(v.Kind, "panic") {
+			v.Property, v.Kind, v.Replayer = "C12", "panic-in-proof-api:"+v.Kind, "C12proofs"
+			return v
+		}
+		return nil
+	}
 	replayers["C02seq"] = func(raw json.RawMessage) *ev.Violation {
 		var c c02SeqCase
 		if err := json.Unmarshal(raw, &c); err != nil {
